@@ -246,6 +246,7 @@ func runC17(r *Report) {
 	ruleOpenFlag(r, "simpledb")
 	ruleWalkSkipsRoot(r)
 	ruleByteAPICopies(r)
+	ruleSyncFailureRollsBack(r)
 	// the string flavour's own validation returns the same sentinel
 	if fn := p.Func("simpledb.DB.Put"); fn != nil {
 		key := rd + "/simpledb.DB.Put/same-sentinel"
